@@ -482,8 +482,9 @@ class PurityScenario(Scenario):
                    E('centroid', ['@IMG']),
                    E('boundary', ['@M']),
                    E('circle', [[9, 8], 3.2], {'shift': [rng.randint(-1, 1), 0]}),
-                   E('hexagon', [[9, 9], 3.5]),
-                   E('rectangle', [[8, 9], 4, 3]),
+                   E('hexagon', [[9, 9], 3.5], {'shift': [rng.randint(-1, 1), rng.randint(-1, 1)]}),
+                   E('hexagon', [[9, 9], 2.5], {'shift': [0, rng.choice([-2, 0, 2])], 'rotate': True}),
+                   E('rectangle', [[8, 9], 4, 3], {'shift': [rng.randint(-1, 1), 0], 'angle': rng.choice([0, 0, 30])}),
                    E('translation_defocus', ['@MB'], {'f_number': 10.0, 'translation': 1e-6})]
             return rng.sample(out, rng.randint(3, 6))
 
